@@ -191,6 +191,9 @@ def yadrenko(ctx, rule="R02.3"):
 
 
 def run(ctx):
+    from .C14 import no_subclass_caches
+
+    no_subclass_caches(ctx, rule="R02.8")  # a normalising constant cached on a model instance outlives the shape parameter it was computed for (shared with C14)
     from .C03 import rounding_consistency
 
     rounding_consistency(ctx, rule="R02.7")  # the order of the exponential integral must be rounded, not truncated: E_{n-1} instead of E_n gives |cor| > 1 (shared with C03)
